@@ -58,6 +58,23 @@ class Arr:
         return "Arr()"
 
 
+class Obj2:
+    """a second attribute holder with other values"""
+    a = 50
+    b = 90
+    x = 210
+    y = 220
+
+    def __eq__(self, other):
+        return isinstance(other, Obj2)
+
+    def __hash__(self):
+        return 23
+
+    def __repr__(self):
+        return "Obj2()"
+
+
 class Obj:
     a = 5
     b = 9
@@ -82,10 +99,11 @@ def base_env(counter=None):
         "boom": boom,
         "arr": Arr(),
         "obj": Obj(),
+        "obj2": Obj2(),
     }
 
 
-SPECIAL_NAMES = ("f", "g", "boom", "arr", "obj")
+SPECIAL_NAMES = ("f", "g", "boom", "arr", "obj", "obj2")
 
 QUICK_DOMAIN = (-1, 0, 2, Fraction(1, 2), True)
 FULL_DOMAIN = (-2, -1, 0, 1, 2, 3, Fraction(-3, 2), Fraction(1, 2), Fraction(5, 2), True, False)
